@@ -156,7 +156,13 @@ pub fn c20_serde(c: &mut Ctx, a: W) {
     expect_de(c, "serde/malformed", "hi + Lo", &ins, a, guard(|| de_map(vec![("hi", a.0), ("Lo", a.1)])), false);
     expect_de(c, "serde/malformed", "padded name", &ins, a, guard(|| de_map(vec![("hi ", a.0), ("lo", a.1)])), false);
     expect_de(c, "serde/malformed", "extra capitalised field", &ins, a, guard(|| de_map(vec![("hi", a.0), ("lo", a.1), ("Hi", a.0)])), false);
-    expect_de(c, "serde/malformed", "integer keys", &ins, a, guard(|| TwoFloat::deserialize(MapDeserializer::<_, VErr>::new(vec![(0u64, a.0), (1u64, a.1)].into_iter())).map_err(|e| e.to_string())), false);
+    // field *indices* 0/1 are a legitimate alternative identifier in serde: either rejected, or accepted
+    // with exactly the presented (valid) words
+    match guard(|| TwoFloat::deserialize(MapDeserializer::<_, VErr>::new(vec![(0u64, a.0), (1u64, a.1)].into_iter())).map_err(|e| e.to_string())) {
+        Err(m) => c.viol("serde/malformed", "panic", &ins, &[], format!("integer keys: {m}")),
+        Ok(Ok(v)) if !(valid && same_bits(&v, a)) => c.viol("serde/malformed", "accepted_invalid", &ins, &[hx(v.hi()), hx(v.lo())], "integer keys 0/1: accepted but the value is invalid or differs from the presented words".into()),
+        _ => {}
+    }
     expect_de(c, "serde/malformed", "integer keys with extra", &ins, a, guard(|| TwoFloat::deserialize(MapDeserializer::<_, VErr>::new(vec![(0u64, a.0), (1u64, a.1), (7u64, 0.0)].into_iter())).map_err(|e| e.to_string())), false);
     expect_de(c, "serde/malformed", "byte-string keys with extra", &ins, a, guard(|| TwoFloat::deserialize(MapDeserializer::<_, VErr>::new(vec![(serde::de::value::BytesDeserializer::<VErr>::new(b"hi"), a.0), (serde::de::value::BytesDeserializer::<VErr>::new(b"mid"), 0.0), (serde::de::value::BytesDeserializer::<VErr>::new(b"lo"), a.1)].into_iter())).map_err(|e| e.to_string())), false);
     expect_de(c, "serde/malformed", "1-sequence", &ins, a, guard(|| de_seq(vec![a.0])), false);
